@@ -134,8 +134,32 @@ func matchFinding(fs []Finding, prop, key string) *Finding {
 		if f.Key == key {
 			return f
 		}
+		// a trailing or embedded '*' matches any run of characters (one finding per call-site class)
+		if strings.Contains(f.Key, "*") && globMatch(f.Key, key) {
+			return f
+		}
 	}
 	return nil
+}
+
+func globMatch(pat, s string) bool {
+	parts := strings.Split(pat, "*")
+	if !strings.HasPrefix(s, parts[0]) {
+		return false
+	}
+	s = s[len(parts[0]):]
+	for i := 1; i < len(parts); i++ {
+		p := parts[i]
+		if i == len(parts)-1 {
+			return strings.HasSuffix(s, p)
+		}
+		k := strings.Index(s, p)
+		if k < 0 {
+			return false
+		}
+		s = s[k+len(p):]
+	}
+	return true
 }
 
 // ---- running ---------------------------------------------------------------------
